@@ -95,7 +95,7 @@ PLANS = {
                        "invariant excludes overlaps and signals beyond the message; by C10's gating contract nothing is written when generation fails",
     },
     "C11": {
-        "targets": ["fcp.parser:_get_fcp", "fcp.parser:get_fcp_from_string"],
+        "targets": ["fcp.parser:_get_fcp", "fcp.parser:get_fcp_from_string", "fcp.parser:FcpV2Transformer.mod_expr"],
         "native": "parse",
         "trusted": [
             "ASSUMED raise sets of lark 1.3.1: Lark.parse raises only UnexpectedCharacters/UnexpectedEOF and terminates; Transformer.transform "
@@ -122,11 +122,13 @@ PLANS = {
     },
     "C20": {
         "targets": ["fcp.specs.v2:FcpV2.merge", "fcp.specs.v2:FcpV2.get_struct", "fcp.specs.v2:FcpV2.get_enum",
-                    "fcp.parser:FcpV2Transformer.composed_type"],
+                    "fcp.parser:FcpV2Transformer.composed_type", "fcp.parser:FcpV2Transformer.mod_expr"],
         "native": "parse",
         "trusted": [
-            "mod_expr itself (path resolution, nested transformer, error naming) uses `with open` and lark objects and is NOT under contract; "
-            "only the native replay exercises it",
+            "mod_expr is under contract for its structure (read, parse, nested transform, merge; every failure becomes an Err and leaves the "
+            "schema untouched); that the path is resolved relative to the importing file and that the error text names the module rest on "
+            "pathlib and are only exercised by the native replay",
+            "assumed: lark raise sets, `with open(p) as f: f.read()` returns the file text or raises FileNotFoundError",
         ],
         "explanation": "merge(other) is proved to append other's structs, enums, impls, services and devices, in order, to the importing schema "
                        "and to change nothing else: importing a module at the point of first need therefore yields the same five lists as "
